@@ -10,7 +10,7 @@ from vlib import (InfraError, Raw, build, copy_specs, covering_walks, log, parse
 
 ELEMS = {'TC': 'vh::ETC', 'TR': 'vh::ETR', 'NTR': 'vh::ENTR'}
 ALLOCS = {'amcled': 1, 'stdlike': 2, 'withrealloc': 3, 'amc': 4, 'std': 5}
-CMPT = {'Cmp': 1, 'Cmp2': 2, 'CmpT': 3}
+CMPT = {'Cmp': 1, 'Cmp2': 2, 'CmpT': 3, 'CmpL': 4, 'CmpG': 5}
 
 
 def sslot(flav, cmp='Cmp', n=0, backing=None, vec=None):
